@@ -241,6 +241,11 @@ func queryRequestsByReqCtx(ctx sdk.Context, req abci.RequestQuery, k Keeper, leg
 		return nil, sdkerrors.Wrap(sdkerrors.ErrJSONUnmarshal, err.Error())
 	}
 
+	// a scan by a truncated ID would return the records of other contexts
+	if err := types.ValidateContextID(params.RequestContextID); err != nil {
+		return nil, err
+	}
+
 	iterator := k.RequestsIteratorByReqCtx(ctx, params.RequestContextID, params.BatchCounter)
 	defer iterator.Close()
 
@@ -265,6 +270,11 @@ func queryResponses(ctx sdk.Context, req abci.RequestQuery, k Keeper, legacyQuer
 	var params types.QueryResponsesParams
 	if err := legacyQuerierCdc.UnmarshalJSON(req.Data, &params); err != nil {
 		return nil, sdkerrors.Wrap(sdkerrors.ErrJSONUnmarshal, err.Error())
+	}
+
+	// a scan by a truncated ID would return the records of other contexts
+	if err := types.ValidateContextID(params.RequestContextID); err != nil {
+		return nil, err
 	}
 
 	iterator := k.ResponsesIteratorByReqCtx(ctx, params.RequestContextID, params.BatchCounter)
